@@ -156,6 +156,9 @@ func pow2(n int) string {
 }
 
 // typeInv returns the type invariant fact for a value of Go type t (range of ints, pointer bounds, slice lengths).
+// deepInv: also state (with a quantifier) that the elements of a slice of references are allocated and typed.
+var deepInv bool
+
 func typeInv(t types.Type, v *Term, alloc *Term) *Term {
 	if lo, hi, ok := intRange(t); ok {
 		return And(Le(BigLit(lo), v), Le(v, BigLit(hi)))
@@ -173,7 +176,7 @@ func typeInv(t types.Type, v *Term, alloc *Term) *Term {
 		l := Sel(v, "len")
 		c := Sel(v, "cap")
 		base := And(Le(IntLit(0), l), Le(l, c), Le(c, BigLit("9223372036854775807")), Implies(Sel(v, "isnil"), Eq(c, IntLit(0))))
-		if isRefType(u.Elem()) && alloc != nil {
+		if deepInv && isRefType(u.Elem()) && alloc != nil {
 			i := BoundVar("ti", SInt)
 			el := Select(Sel(v, "elems"), i)
 			base = And(base, Forall([]*Term{i}, Implies(And(Le(IntLit(0), i), Lt(i, l)), And(Le(IntLit(0), el), Lt(el, alloc), refTyped(u.Elem(), el))), []*Term{el}))
